@@ -42,6 +42,15 @@ CHECKS = {
  "C17": ("neg_mc+stream_mc", "exhaustive enumeration of Accept-Encoding values x gzip level 0..9 x chunk sizes x methods x request representation, real streaming_body + independent decoder",
          "Vary names accept-encoding; Content-Encoding: gzip iff evaluator prefers gzip and level > 0; body sniffed: says gzip <=> exactly one gzip member of the payload, else payload verbatim; Request and Parts representations agree; HEAD same headers and no writer.",
          "Accept-Encoding values: all C16 lists of <= 2 elements + 20 hand-picked; payloads {0, 300 bytes}.", "3/C17"),
+ "C10": ("sched_mc", "stateless exhaustive exploration of thread interleavings of the real code under a controlled scheduler (decision points: every acquisition of the instrumented mutex, wake(), park, wait, environment choices), depth-first over choice vectors with iterative preemption bounding",
+         "Every schedule of {producer program} || {consumer loop} for all programs up to length 3 (quick) / 4 (thorough) with unbounded preemptions, longer programs and environment choices (fresh waker per poll, spurious re-polls) at preemption bound 1..2, abort programs, gzip writer; deadlock (= lost wake-up) detection, delivered == accepted on clean end, abort => error, bounded polls after the writer is gone. Each violating schedule is replayed and must reproduce.",
+         "Scheduling granularity = lock acquisition / wake / park (complete for safe code over one Mutex, no atomics); preemption bounds and program lengths as listed in the evidence; no partial-order reduction.", "2.4, 3/C10"),
+ "C18": ("fs_mc", "exhaustive enumeration of file sizes x ranges x truncation/growth fault points (before every poll) on real files, std::fs as reference",
+         "Every range with start/end on, just before and just after the 64 KiB read boundaries, for seven file sizes, read through get_range and through serve(); truncation to every interesting length before every poll: error within a bounded number of polls, never a clean short end, delivered bytes unchanged; metadata and ETag stability / sensitivity (append, mtime +1s, +1ns, replaced inode); non-regular files refused.",
+         "Runs on the sandbox file system (ns-granular mtimes are probed and the +1ns case is counted as skipped if the fs truncates them).", "3/C18"),
+ "C19": ("fs_mc", "exhaustive enumeration of path strings (1..3/4 segments over 9 segment kinds, slashes, NUL at every position) x Accept-Encoding x auto_gzip against a fixture tree, std::fs + independent negotiation evaluator as reference",
+         "Lexical rule decides rejection (InvalidInput); accepted paths must open exactly the inode std::fs opens for base/path (or its .gz sibling when substitution applies), with the same error kind on failure, always inside the base directory; encoding()/add_encoding_headers consistent.",
+         "No symlinks in the fixture (documented non-goal of the crate); the empty path is excluded from the equality oracle only.", "3/C19"),
  "C12": ("serve_mc+stream_mc", "per-step monitor (size_hint, is_end_stream sampled before every poll) attached to every execution of the C01, C06, C08, C09, C11 explorations, plus all Body::from conversions",
          "Retrospective check on every sample of every explored body: lower <= bytes still delivered <= upper on clean ends, exact hints for serve/Body::from bodies, is_end_stream never followed by bytes or an error, streaming body never at end while chunks or an abort are pending.",
          "Same bounds as the explorations it rides on.", "3/C12"),
@@ -90,6 +99,8 @@ def main():
             "add_only": True,
         },
         "engines": [
+            {"name": "sched_mc", "path": "/verif/harness/src/sched_mc.rs", "serves_properties": ["C10","C11","C12","C20"], "kind_free_text": "controlled-scheduler exploration of real producer/consumer threads (src/sched.rs) through the verif-hooks instrumented mutex; DFS over choice vectors, iterative preemption bounding, replayable schedules"},
+            {"name": "fs_mc", "path": "/verif/harness/src/fs_mc.rs", "serves_properties": ["C18","C19"], "kind_free_text": "enumeration of file/range/fault-point and path-string spaces on real files, std::fs as reference"},
             {"name": "stream_mc", "path": "/verif/harness/src/stream_mc.rs", "serves_properties": ["C08","C09","C11","C12","C17","C20"], "kind_free_text": "stateless exhaustive exploration of operation histories of the real streaming_body writer/body pair, byte-vector reference model, independent gzip decoder"},
             {"name": "neg_mc", "path": "/verif/harness/src/neg_mc.rs", "serves_properties": ["C15","C16","C17"], "kind_free_text": "exhaustive enumeration of the Accept-Encoding language and of negotiated streaming_body configurations against an independent RFC 7231 evaluator"},
             {"name": "serve_mc", "path": "/verif/harness/src/serve_mc.rs", "serves_properties": ["C01","C02","C03","C04","C05","C06","C07","C12","C13","C14","C15","C20"], "kind_free_text": "stateless exhaustive exploration of the real serve(): requests x entities x scripted entity-stream answers, reference-model oracle (src/oracle)"},
